@@ -54,39 +54,77 @@ Definition V3 (n : nat) (a : str) (p : option ppath) : nat * str * option ppath 
    ObjectType.arguments); the heap holds `fields` in the order of the .values dict of the real
    configuration (assignment order), as observed before the submit; ids: for every configuration
    attached as a pre-task, its raw identifier (lower-case hex: same order as the bytes), [] for
-   the others                                                                                  *)
-Definition case_t := (heap * list (list (str * str)) * list (list str) * list str * nat * answer)%type.
-Definition Case (h : heap) (g : list (list (str * str))) (d : list (list str)) (ids : list str) (r : nat)
-                (a : answer) : case_t := (h, g, d, ids, r, a).
+   the others; metas: configuration flagged with setmeta(c, True).
+   tree: what two directed probes say about the tree under test - pre-tasks placed by the rank of
+   their identifier (fixes/C17-3.diff) or by list index, flagged list elements numbered apart
+   (fixes/C17-4.diff) or every element counted                                                *)
+Record tree := { t_sorts_pre : bool; t_meta_apart : bool }.
+Definition case_t :=
+  (heap * list (list (str * str)) * list (list str) * list str * list bool * tree * nat * answer)%type.
+Definition Case (h : heap) (g : list (list (str * str))) (d : list (list str)) (ids : list str)
+                (metas : list bool) (t : tree) (r : nat) (a : answer) : case_t := (h, g, d, ids, metas, t, r, a).
 
-Definition check_with (esc : str -> str) (SE : list (list str) -> (nat -> str) -> nat -> node -> list edge)
+(* SE decls idk metaf = the edges the Sealer follows *)
+Definition check_with (esc : str -> str)
+                      (SE : list (list str) -> (nat -> str) -> (nat -> bool) -> nat -> node -> list edge)
                       (second : bool) (c : case_t) : bool :=
-  let '(h, gens, decls, ids, root, a) := c in
+  let '(h, gens, decls, ids, metas, t, root, a) := c in
   let idk := fun n => nth n ids [] in
+  let metaf := fun n => nth n metas false in
   let hd := map (norm_node decls idk) h in
-  match generated esc (SE decls idk) h gens root jd with
+  match generated esc (SE decls idk metaf) h gens root jd with
   | None => false
   | Some l =>
       list_eqb Bool.eqb (map sealed h) (a_sealed a)
       && values_agree h l (a_values a) && (if second then values_agree h l (a_values2 a) else true)
-      (* the hypotheses of C17_sorted_inside_distinct hold on the generated heaps *)
+      (* the hypotheses of C17_full_inside_distinct hold on the generated heaps *)
       && files_plainb gens && names_wfb hd && task_targets_cutb hd
       && forallb (fun nd => nodup_keys (map fst (fields nd))) h
   end.
 
-(* C17: the model of the repaired code (fixes/C17-1, -2, -3).  The second submit is a fresh copy whose
-   dicts may have been filled in the opposite order, whose parameters may have been assigned in another
-   order, or whose pre-tasks may have been added in another order: same configuration, same model answer
-   (C17_dict_order_irrelevant, C17_assignment_order_irrelevant_sorted, C17_pretask_order_irrelevant)  *)
-Definition check_case := check_with esc_fix seal_edges_sorted true.
-(* the code before fixes/C17-3.diff: pre-tasks placed by their index in the list (the harness gives
-   the values of the first submit twice when the second copy has its pre-tasks in another order)   *)
-Definition check_case_listorder := check_with esc_fix (fun decls _ => seal_edges_decl decls) true.
+(* the model of the repaired code (fixes/C17-1 ... -4) *)
+Definition edges_repaired := seal_edges_full.
+(* the model of the tree as the probes describe it *)
+Definition edges_of_tree (t : tree) (decls : list (list str)) (idk : nat -> str) (metaf : nat -> bool)
+                         (n : nat) (nd : node) : list edge :=
+  seal_edges_m (if t_meta_apart t then metaf else no_meta) n
+               (if t_sorts_pre t then norm_node decls idk nd else by_decl decls nd).
+
+(* C17.  The second submit is a fresh copy of the same configuration: dicts filled in the opposite order,
+   or parameters assigned in another order, or pre-tasks added in another order, or flagged list
+   elements dropped - same model answer (C17_dict_order_irrelevant, C17_assignment_order_irrelevant_full,
+   C17_pretask_order_irrelevant_full, C17_meta_list_elements_irrelevant); where the tree lacks the repair
+   the harness gives the values of the first submit twice and the oracle reports the difference      *)
+Definition check_case (c : case_t) : bool :=
+  let '(_, _, _, _, _, t, _, _) := c in check_with esc_fix (edges_of_tree t) true c.
 (* diagnosis: the code before fixes/C17-2.diff (dicts walked in insertion order), first submit only *)
 Definition check_case_insertion :=
-  check_with esc_fix (fun decls _ n nd => seal_edges_insertion n (by_decl decls nd)) false.
+  check_with esc_fix (fun decls _ _ n nd => seal_edges_insertion n (by_decl decls nd)) false.
 (* diagnosis: the code before fixes/C17-1.diff (keys used as they are) *)
 Definition check_case_prefix :=
-  check_with esc_prefix (fun decls _ n nd => seal_edges_insertion n (by_decl decls nd)) false.
+  check_with esc_prefix (fun decls _ _ n nd => seal_edges_insertion n (by_decl decls nd)) false.
 (* diagnosis: a walk that iterates .values.items() (assignment order), first submit only *)
-Definition check_case_assigned := check_with esc_fix (fun _ _ => seal_edges_assigned) false.
+Definition check_case_assigned := check_with esc_fix (fun _ _ _ => seal_edges_assigned) false.
+(* diagnosis: list positions that do not count the flagged elements (they share the position of the
+   next element), first submit only                                                             *)
+Fixpoint edges_value_skip (metaf : nat -> bool) (rel : list str) (v : value) : list edge :=
+  match v with
+  | VRef n => [(rel, n)]
+  | VList l =>
+      (fix go (i : nat) (l : list value) : list edge :=
+         match l with
+         | [] => []
+         | x :: l' => edges_value_skip metaf (rel ++ [dec i]) x ++ go (if flagged metaf x then i else S i) l'
+         end) 0%nat l
+  | VDict l =>
+      List.concat (map snd (sort_keys
+        ((fix go (l : list (str * value)) : list (str * list edge) :=
+            match l with [] => [] | (k, x) :: l' => (k, edges_value_skip metaf (rel ++ [k]) x) :: go l' end) l)))
+  | _ => []
+  end.
+Definition check_case_skip :=
+  check_with esc_fix (fun decls idk metaf n nd =>
+    let nd' := norm_node decls idk nd in
+    flat_map (fun kv => edges_value_skip metaf [fst kv] (snd kv)) (fields nd')
+    ++ edges_tasks k_pre (pre nd') ++ edges_tasks k_init (init nd')
+    ++ match task nd' with Some t => if Nat.eqb t n then [] else [([], t)] | None => [] end) false.
